@@ -29,8 +29,8 @@ ANCHOR_FILES = ["src/ropt/ensemble_evaluator/_ensemble_evaluator.py", "src/ropt/
 RULE = ("case = one configuration; non-trivial if the run made at least one gradient (perturbation) request or is a population run; distinct key = case index; "
         "monitor_counters: traces compared, evaluator calls hashed")
 ASSUMPTIONS = ["differential_evolution is only required to be reproducible when given an explicit 'seed' option (as the statement says)"]
-REQUIRED = {"quick": {"trace_pairs_compared": 295, "evaluator_calls_hashed": 1800, "foreign_runs_interleaved": 144, "seed_sensitivity_checked": 30, "fresh_process_runs": 6, "same_step_reruns": 200, "runs_with_unscrambled_qmc_samplers": 15, "runs_with_relative_perturbations": 14, "generator_object_seed_reruns": 30, "fresh_process_runs_with_several_samplers": 120, "runs_with_a_foreign_run_inside": 70, "runs_in_a_context_whose_earlier_plan_was_aborted": 70, "first_drawing_sampler_without_variables": 5, "__nontrivial__": 63},
-            "thorough": {"trace_pairs_compared": 6075, "evaluator_calls_hashed": 40000, "foreign_runs_interleaved": 3000, "seed_sensitivity_checked": 700, "fresh_process_runs": 75, "same_step_reruns": 4000, "runs_with_unscrambled_qmc_samplers": 300, "runs_with_relative_perturbations": 300, "generator_object_seed_reruns": 600, "fresh_process_runs_with_several_samplers": 700, "runs_with_a_foreign_run_inside": 1400, "runs_in_a_context_whose_earlier_plan_was_aborted": 1400, "__nontrivial__": 1245}}
+REQUIRED = {"quick": {"trace_pairs_compared": 295, "evaluator_calls_hashed": 1800, "foreign_runs_interleaved": 144, "seed_sensitivity_checked": 30, "fresh_process_runs": 6, "same_step_reruns": 200, "runs_with_unscrambled_qmc_samplers": 15, "runs_with_relative_perturbations": 14, "runs_with_distribution_options_on_a_stats_sampler": 10, "generator_object_seed_reruns": 30, "fresh_process_runs_with_several_samplers": 120, "runs_with_a_foreign_run_inside": 70, "runs_in_a_context_whose_earlier_plan_was_aborted": 70, "first_drawing_sampler_without_variables": 5, "__nontrivial__": 63},
+            "thorough": {"trace_pairs_compared": 6075, "evaluator_calls_hashed": 40000, "foreign_runs_interleaved": 3000, "seed_sensitivity_checked": 700, "fresh_process_runs": 75, "same_step_reruns": 4000, "runs_with_unscrambled_qmc_samplers": 300, "runs_with_relative_perturbations": 300, "runs_with_distribution_options_on_a_stats_sampler": 250, "generator_object_seed_reruns": 600, "fresh_process_runs_with_several_samplers": 700, "runs_with_a_foreign_run_inside": 1400, "runs_in_a_context_whose_earlier_plan_was_aborted": 1400, "__nontrivial__": 1245}}
 N = {"quick": 120, "thorough": 2500}
 SAMPLERS = ["norm", "uniform", "truncnorm", "sobol", "halton", "lhs"]
 
@@ -71,6 +71,12 @@ def gen_spec(rng):
         if smp["method"].split("/")[-1] in ("lhs", "sobol", "halton") and rng.random() < 0.3:
             smp["options"] = {"scramble": False}
             spec["_unscrambled"] = True
+    for smp in spec["samplers"]:
+        # documented distribution options of the stats samplers
+        base = smp["method"].split("/")[-1]
+        if base in ("norm", "uniform", "truncnorm") and "options" not in smp and rng.random() < 0.35:
+            smp["options"] = {"norm": {"scale": 2.0}, "uniform": {"loc": -0.5, "scale": 1.0}, "truncnorm": {"a": -2.0, "b": 2.0}}[base]
+            spec["_stats_options"] = True
     if V > 1 and rng.random() < 0.3:
         m = rng.random(V) < 0.6
         m[int(rng.integers(V))] = True
@@ -303,6 +309,8 @@ def run_case(case, obs):
         handles = free & (np.array(spec["smap"]) == k) if spec.get("smap") is not None else (free if k == 0 else np.zeros_like(free))
         if handles.any() and sm.get("options", {}).get("scramble") is not False:      # (an unscrambled design of a few points may coincide for two seeds)
             draws = True
+    if spec.get("_stats_options"):
+        obs.count("runs_with_distribution_options_on_a_stats_sampler")
     if spec.get("_relative"):
         obs.count("runs_with_relative_perturbations")
     if spec.get("_unscrambled"):
